@@ -105,7 +105,8 @@ def replaceJudge (f : List String) (out : String) : String :=
   match parseReplace f with
   | none => "bad:unparsable:case"
   | some c =>
-    if out = "PANIC" then Casket.ReplacerSpec.verdict c.env c.fmt .panic
+    if out = "HANG" then "bad:non-terminating:Replace did not return within 5 s"
+    else if out = "PANIC" then Casket.ReplacerSpec.verdict c.env c.fmt .panic
     else match Driver.unhex out with
       | none => "bad:unparsable:" ++ out
       | some b => Casket.ReplacerSpec.verdict c.env c.fmt (.out b)
